@@ -190,7 +190,7 @@ func SafeImpl(p *Prop, line string) (res string) {
 	select {
 	case s := <-done:
 		return s
-	case <-time.After(20 * time.Second):
+	case <-time.After(90 * time.Second): // generous: the machine may be heavily loaded
 		return "timeout"
 	}
 }
